@@ -139,10 +139,16 @@ func genC12(cfg Config, ws *WorldSet, i int) C12Case {
 	if L == 0 {
 		L = 600
 	}
+	// one history in eight redirects its output with -out (same directory, another name);
+	// the whole history then lives at that path
+	outArg := ""
+	if r.Chance(1, 8) {
+		outArg = filepath.Dir(setup) + "/" + sim.Pick(r, []string{"zz_generated.go", "conv_gen.go", "logo.go"})
+	}
 	mkInv := func() *Invocation {
 		form := sim.Pick(r, []string{"rel-pkgdir", "rel-pkgdir", "rel-pkgdir", "rel-modroot", "gofile", "abs"})
 		cwd, in, gofile := InputForm(form, setup)
-		iv := &Invocation{Cwd: cwd, Input: in, GoFile: gofile}
+		iv := &Invocation{Cwd: cwd, Input: in, GoFile: gofile, OutArg: outArg}
 		switch r.Intn(10) {
 		case 0:
 			iv.Dry, iv.Print = true, true
@@ -151,10 +157,10 @@ func genC12(cfg Config, ws *WorldSet, i int) C12Case {
 		case 2:
 			iv.Print = true
 		}
-		iv.OutPath = ResolveOut(cwd, in, gofile, "")
+		iv.OutPath = ResolveOut(cwd, in, gofile, outArg)
 		return iv
 	}
-	outPath := ResolveOut(filepath.Dir(setup), filepath.Base(setup), "", "")
+	outPath := ResolveOut(filepath.Dir(setup), filepath.Base(setup), "", outArg)
 	runStep := func() Step {
 		s := Step{Op: "run", Inv: mkInv(), Bin: "sim", Plan: &sim.Plan{Markers: genMarkers(r, 4)}}
 		if r.Chance(1, 4) {
